@@ -638,7 +638,7 @@ def call_strategy(prog, smax=None):
 
 
 # ------------------------------------------------------------------ calling the library
-IV_KEY = {"ElasticStrain": "eel0", "EquivalentViscoplasticStrain": "p0", "EquivalentPlasticStrain": "p0",
+IV_KEY = {"ElasticStrain": "eel0", "EquivalentViscoplasticStrain": "p0", "EquivalentPlasticStrain": "p0", "p": "p0",
           "AxialStrain": "etozz0", "ViscoplasticStrain": "evp0"}
 
 
@@ -693,7 +693,7 @@ def perform(gb, lib, call, k0, deto=None, sig0=None):
 
 
 def get_p(out):
-    for k in ("EquivalentViscoplasticStrain", "EquivalentPlasticStrain"):
+    for k in ("EquivalentViscoplasticStrain", "EquivalentPlasticStrain", "p"):
         if k in out["iv"]:
             return float(out["iv"][k][0])
     return None
